@@ -273,6 +273,25 @@ def fam_forged(rng):
     return out
 
 
+def fam_revoked(rng):
+    """Trust granted to a sealing node and revoked again: a valid vertex it sealed while trusted stays, an overdraft it
+    seals afterwards is dropped like anybody's; trust granted again later does not bring it back."""
+    out = []
+    T, U = {"op": "trust", "n": "N1", "a": "N2"}, {"op": "untrust", "n": "N1", "a": "N2"}
+    for depth in (1, 2):
+        ops = [G(), P("N1", "t1", 2), T,
+               {"op": "craft", "s": "N2", "t": "t3", "l": 2, "r": 2, "w": 2, "id": 3}, D("N1", 3), P("N1", "t5", 4),   # validated while trusted
+               U, {"op": "craft", "s": "N2", "t": "t6", "l": 4, "r": 4, "w": 4, "id": 5}, D("N1", 5),                   # overdraft after revocation
+               P("N1", "t2", 6), P("N1", "t4", 7), {"op": "balance", "n": "N1", "wl": "A"}, {"op": "truncate", "n": "N1"},
+               T, P("N1", "t6", 8), U, P("N1", "t6", 9)]
+        out.append(("single", depth, ops))
+        # trust and self-sealed / empty / overdraft vertices of the trusted node
+        ops = [G(), P("N1", "t1", 2), T, {"op": "craft", "s": "N2", "t": "t6", "l": 2, "r": 2, "w": 2, "id": 3}, D("N1", 3), P("N1", "t2", 4),
+               U, P("N1", "t3", 5), {"op": "balance", "n": "N1", "wl": "A"}, {"op": "balance", "n": "N1", "wl": "B"}]
+        out.append(("single", depth, ops))
+    return out
+
+
 def fam_weights(rng):
     """A delivered vertex that claims a weight far above its parents' moves the weight window: tips below the window
     become invalid (and are dropped by the next proposal), deliveries below it are refused.  Around the boundary
@@ -467,6 +486,15 @@ def fam_orphans(rng, nperm):
             ops.append(D("N2", 2 + i))
         ops += [D("N2", 2), {"op": "tick", "n": "N2", "times": 505}]
         out.append(("twobig", 2, ops))
+    # vertices that were sealed minutes ago (a peer that was cut off) arrive child first: age plays no part
+    ops = [G(), {"op": "load", "m": "N2", "n": "N1"}, P("N1", "t1", 2),
+           {"op": "craft", "s": "N3", "t": "t3", "l": 2, "r": 2, "w": 2, "id": 3, "old": True},
+           {"op": "craft", "s": "N3", "t": "t5", "l": 3, "r": 3, "w": 3, "id": 4, "old": True},
+           {"op": "craft", "s": "N3", "t": "t2", "l": 4, "r": 4, "w": 4, "id": 5, "old": True},
+           D("N2", 5), D("N2", 4), {"op": "tick", "n": "N2", "times": 2}, D("N2", 3), {"op": "tick", "n": "N2", "times": 2},
+           D("N2", 2), {"op": "tick", "n": "N2", "times": 8}, D("N1", 3), D("N1", 4), D("N1", 5),
+           {"op": "compare", "n": "N1", "m": "N2"}]
+    out.append(("twosingle", 2, ops))
     # an invalid vertex (overdraft sealed by an untrusted node) parked and retried must not be built on
     ops = [G(), {"op": "load", "m": "N2", "n": "N1"}, P("N1", "t1", 2),
            {"op": "craft", "s": "N3", "t": "t6", "l": 2, "r": 2, "w": 2, "id": 3},
@@ -574,12 +602,12 @@ ALL_EVENTS = ["History", "BalanceRaced", "Reset", "Genesis", "ProposePre", "Prop
 PROPS = {
     "C01": dict(strict=["ProposeCommit", "DeliverCommit", "Truncate", "Wedged"],
                 inv=["TypeOK"], prop=["C01_NoOverdraftConfirmed", "C01_OnlyTipsDropped", "C03_Reproposable"],
-                gens=[("single", 1.0)], fams=["truncation", "concurrent", "weights", "cancel"], mc="single"),
+                gens=[("single", 1.0)], fams=["truncation", "concurrent", "weights", "cancel", "revoked"], mc="single"),
     "C02": dict(strict=["Wedged"], inv=["C02_ModuloF10"], prop=[],
-                gens=[("two", 0.5), ("twosingle", 0.3), ("drain", 0.2)], fams=["doublespend", "truncation"], mc="two"),
+                gens=[("two", 0.5), ("twosingle", 0.3), ("drain", 0.2)], fams=["doublespend", "truncation", "revoked_valid"], mc="two"),
     "C03": dict(strict=["ProposePre", "ProposeCommit", "DeliverPre", "DeliverCommit", "TickPop", "Wedged"],
                 inv=["C03_UniqueTrx", "C03_IndexExact", "TypeOK"], prop=["C03_Reproposable"],
-                gens=[("single", 0.7), ("twosingle", 0.3)], fams=["concurrent", "truncation", "forged"], mc="single"),
+                gens=[("single", 0.7), ("twosingle", 0.3)], fams=["concurrent", "truncation", "forged", "load"], mc="single"),
     "C06": dict(strict=["Balance", "Wedged"], inv=[], prop=[],
                 gens=[("single", 0.4), ("drain", 0.3), ("twosingle", 0.3)], fams=["truncation", "load"], mc="single"),
     "C07": dict(strict=["Truncate", "TruncateCancelled", "ReadTrx", "ReadVertex", "ProposePre", "DeliverPre", "Balance", "Wedged"],
@@ -587,7 +615,7 @@ PROPS = {
                 gens=[("single", 0.5), ("drain", 0.5)], fams=["truncation", "trunc_retry"], mc="single"),
     "C09": dict(strict=["ProposeCommit", "Genesis", "Wedged"],
                 inv=["C09_WellFormed", "SelfAuthentic", "ViewConsistent", "TypeOK"], prop=["C09_LocalCreate"],
-                gens=[("single", 0.6), ("twosingle", 0.4)], fams=["truncation", "concurrent", "load", "forged"], mc="single"),
+                gens=[("single", 0.6), ("twosingle", 0.4)], fams=["truncation", "concurrent", "load", "forged", "cancel"], mc="single"),
     "C10": dict(strict=["ProposePre", "DeliverPre", "Genesis", "TickPop", "Load", "Wedged"],
                 inv=["C10_SealingRules"], prop=[],
                 gens=[("rules", 0.7), ("twosingle", 0.3)], fams=["rules", "load"], mc="rules"),
@@ -620,6 +648,9 @@ FAMS = {
     "weights": lambda rng, tier: fam_weights(rng),
     "cancel": lambda rng, tier: fam_cancel(rng),
     "forged": lambda rng, tier: fam_forged(rng),
+    "revoked": lambda rng, tier: fam_revoked(rng),
+    # for C02: only the behaviours in which nothing invalid is confirmed under the exemption
+    "revoked_valid": lambda rng, tier: fam_revoked(rng)[::2],
     "trunc_retry": lambda rng, tier: fam_trunc_retry(rng),
 }
 
